@@ -140,3 +140,11 @@ package worker
 //@   ghost nrun int = 0
 //@   at assign s#1: set nrun = nrun + ite(s != "" && s != "broken" && splitcount(s, " ") == 1, 1, 0)
 //@   loop 1: invariant len(running) == nrun
+
+// CountWorkers answers only after the initial instance list has been loaded
+// (before that there are no workers to count, and "no unknown workers" would be
+// taken by the scheduler as "every old process has been found").
+//@ func Pool.CountWorkers property C14 safety -nil
+//@   ghost waited bool = false
+//@   calls Pool.waitUntilLoaded#1: set waited = true
+//@   at assign r#1: assert waited
